@@ -104,4 +104,16 @@ mutual
     | a :: as => vars a ++ varsL as
 end
 
+/-! ### which argument binds which parameter (`resolve_type_params`) -/
+
+/-- the parameters in the order the arguments of `C[a0, a1, …]` are matched with them.  `collected`:
+    the variables in the order of their first appearance in the bases (what `collect_type_params`
+    yields over `__orig_bases__`); `own`: the class's own parameter list (`C.__parameters__`, i.e.
+    `Generic[…]` order).  `ownFirst = true` is the code since fix F70. -/
+def paramOrder (ownFirst : Bool) (own collected : List Nat) : List Nat :=
+  if ownFirst && own.length == collected.length && own.all collected.contains && collected.all own.contains
+  then own else collected
+
+def bindArgs (ps : List Nat) (args : List GTy) : Sub := ps.zip args
+
 end Mashu.Subst
